@@ -10,6 +10,7 @@ sys.path.insert(0, str(VERIF))
 
 import importlib  # noqa: E402
 
+from mitmlint.registry import ARMED  # noqa: E402
 from mitmlint.registry import NOT_APPLICABLE  # noqa: E402
 
 
@@ -34,7 +35,7 @@ def main():
         if pid in NOT_APPLICABLE:
             na.append({"property_id": pid, "reason": NOT_APPLICABLE[pid]})
             continue
-        r = reg_of(pid) if built else None
+        r = reg_of(pid) if built and pid in ARMED else None
         if r is None:
             na.append({"property_id": pid, "reason": "static check designed (DESIGN.md section 4) but not built/armed yet; not claimed until it is"})
             continue
